@@ -72,6 +72,8 @@ def _calls():
         "rel-base-2010": lambda: P("in 2 days", languages=["en"], settings={"RELATIVE_BASE": datetime(2010, 6, 1, 8, 0)}),
         "default-tz-en": lambda: P("March 3, 2011 10:00 EST"),
         "default-es": lambda: P("12 abril 2014"),
+        "fmt-fr-a": lambda: P("10 janvier, 11", languages=["fr"], date_formats=["%y %B, %d"]),
+        "fmt-fr-b": lambda: P("12 mars, 13 10:30", languages=["fr"], date_formats=["%y %B, %d %H:%M"]),
         "nospace-12": lambda: P("201512311230", languages=["en"], settings={"PARSERS": ["no-spaces-time"]}),
         "nospace-14": lambda: P("20140101125959", languages=["en"], settings={"PARSERS": ["no-spaces-time"]}),
         "default-fr-tz": lambda: P("10 janvier 2020 10:00 PST"),
@@ -107,6 +109,7 @@ PAIRS = [
     ("equal-settings-that-matter", "order-DMY", "order-DMY-other"),
     ("default-parser-two-strings-not-in-the-first-language", "default-fr-tz", "default-fr"),
     ("no-spaces-parser-first-use", "nospace-12", "nospace-14"),
+    ("date-formats-same-locale", "fmt-fr-a", "fmt-fr-b"),
 ]
 QUICK_WARM = ["same-config-same-language", "same-call-twice", "settings-differ-irrelevant-field", "shared-settings-dict-fr-vs-en",
               "skip-tokens-differ", "parse-vs-search", "relative-base-differs",
@@ -254,15 +257,18 @@ def _driver(task):
 
 
 # ------------------------------------------------------------------------------------------------ bound 2
-BOUND2_QUICK = ["same-config-same-language"]
-BOUND2_THOROUGH = ["same-config-same-language", "default-settings-fr-vs-en"]
-B2_STRIPES_QUICK = 36
+# (pair, granularity of the preemption points, both roles?, k-stripes in the quick tier)
+BOUND2_QUICK = [("date-formats-same-locale", "stack", False, 1), ("same-config-same-language", "stack", True, 1), ("relative-base-differs", "stack", False, 1)]
+BOUND2_THOROUGH = [("same-config-same-language", "line", True, 1), ("default-settings-fr-vs-en", "line", True, 1), ("date-formats-same-locale", "line", False, 1),
+                   ("date-formats-same-locale", "stack", True, 1), ("shared-settings-dict-fr-vs-en", "stack", True, 1), ("parse-vs-search", "stack", True, 1),
+                   ("cache-limit-1-twice", "stack", True, 1), ("relative-base-differs", "stack", True, 1), ("equal-settings-that-matter", "stack", True, 1)]
 
 
-def _firsts(locs):
+def _firsts(locs, gran="line"):
+    """Indices of the first line event of every static source line ("line") or of every distinct library call stack ("stack")."""
     seen, out = set(), []
     for i, l in enumerate(locs):
-        key = (l[0], l[1])
+        key = (l[0], l[1]) if gran == "line" else l[3]
         if key not in seen:
             seen.add(key)
             out.append(i)
@@ -273,7 +279,8 @@ def _driver2(task):
     """Bound-2 exploration of one chunk of A's preemption points: every (k, j) with k in the chunk and j over all first
     occurrences of B's static locations (plus j = len(B): B not preempted).  Runs in a process forked from the pristine parent."""
     try:
-        pname, a_name, b_name, chunk, nchunks, stripe, nstripes = task
+        pname, a_name, b_name, chunk, nchunks, stripe, nstripes = task[:7]
+        gran = task[7] if len(task) > 7 else "line"
         clock.freeze(NOW)
         A, Bc = call(a_name), call(b_name)
         A()
@@ -286,7 +293,7 @@ def _driver2(task):
         rb2, lb2 = _in_child(lambda: record2(Bc))
         if la != la2 or lb != lb2 or ra1 != ra2 or rb1 != rb2:
             return {"error": "traced runs of %s/%s are not deterministic" % (a_name, b_name)}
-        fa, fb = _firsts(la), _firsts(lb)
+        fa, fb = _firsts(la, gran), _firsts(lb, gran)
         ks = fa[stripe::nstripes][chunk::nchunks]
         js = fb + [len(lb)]
         co = Coop(A, Bc)
@@ -298,7 +305,7 @@ def _driver2(task):
                 r = _in_child(lambda: co.run(k, j))
                 if "error" in r:
                     return {"error": "schedule (%d,%d) of %s: %s" % (k, j, pname, r["error"])}
-                if r["reached"]["A"] is None or list(r["reached"]["A"]) != list(la[k]):
+                if r["reached"]["A"] is None or list(r["reached"]["A"]) != list(la[k][:3]):
                     return {"error": "replayed prefix diverged: A reached %r, recorded %r at k=%d" % (r["reached"]["A"], la[k], k)}
                 n += 1
                 blocked += 1 if r["blocked"] else 0
@@ -309,7 +316,7 @@ def _driver2(task):
                 outcomes[kk] = outcomes.get(kk, 0) + 1
                 if pair not in allowed:
                     bad.append({"k": k, "j": j, "ra": r["ra"], "rb": r["rb"], "locA": r["reached"]["A"], "locB": r["reached"]["B"]})
-        return {"pair": pname, "A": a_name, "B": b_name, "chunk": chunk, "stripe": stripe, "nstripes": nstripes, "schedules": n,
+        return {"pair": pname, "A": a_name, "B": b_name, "gran": gran, "chunk": chunk, "stripe": stripe, "nstripes": nstripes, "schedules": n,
                 "ks": len(ks), "js": len(js), "static_A": len(fa), "static_B": len(fb), "line_events_A": len(la), "line_events_B": len(lb),
                 "blocked": blocked, "b_finished_early": b_short, "outcomes": outcomes, "allowed": sorted(allowed), "bad": bad[:500]}
     except Exception:  # noqa: BLE001
@@ -320,15 +327,14 @@ def _driver2(task):
 def _run_bound2(tier, seed, jobs, deadline, t0, report):
     T = tier == "thorough"
     pairs = {p[0]: p for p in PAIRS}
-    nstripes = 1 if T else B2_STRIPES_QUICK
-    stripe = 0 if T else seed % nstripes
     nchunks = max(2, jobs - 2) * (4 if T else 1)
     tasks = []
-    for name in (BOUND2_THOROUGH if T else BOUND2_QUICK):
+    for name, gran, both, nstripes in (BOUND2_THOROUGH if T else BOUND2_QUICK):
+        stripe = seed % nstripes
         _, a, b = pairs[name]
-        for x, y in ((a, b), (b, a)):
+        for x, y in (((a, b), (b, a)) if both else ((a, b),)):
             for c in range(nchunks):
-                tasks.append((name, x, y, c, nchunks, stripe, nstripes))
+                tasks.append((name, x, y, c, nchunks, stripe, nstripes, gran))
     ctx = mp.get_context("fork")
     res = []
     with ctx.Pool(max(2, jobs - 2), maxtasksperchild=1) as pool:
@@ -344,7 +350,7 @@ def _run_bound2(tier, seed, jobs, deadline, t0, report):
                 break
     agg = {}
     for r in res:
-        g = agg.setdefault((r["pair"], r["A"]), {"pair": r["pair"], "A": r["A"], "B": r["B"], "schedules": 0, "ks": 0, "js": r["js"], "blocked": 0,
+        g = agg.setdefault((r["pair"], r["A"], r["gran"]), {"pair": r["pair"], "A": r["A"], "B": r["B"], "gran": r["gran"], "schedules": 0, "ks": 0, "js": r["js"], "blocked": 0,
                                                  "b_finished_early": 0, "outcomes": {}, "bad": [], "allowed": r["allowed"], "static_A": r["static_A"],
                                                  "static_B": r["static_B"], "line_events_A": r["line_events_A"], "line_events_B": r["line_events_B"],
                                                  "stripe": "%d/%d" % (r["stripe"], r["nstripes"])})
@@ -355,9 +361,9 @@ def _run_bound2(tier, seed, jobs, deadline, t0, report):
         g["bad"].extend(r["bad"])
     total = 0
     per = []
-    for (pname, a_name), g in sorted(agg.items()):
+    for (pname, a_name, gran_), g in sorted(agg.items()):
         total += g["schedules"]
-        per.append({k: g[k] for k in ("pair", "A", "B", "schedules", "ks", "js", "static_A", "static_B", "line_events_A", "line_events_B", "blocked",
+        per.append({k: g[k] for k in ("pair", "A", "B", "gran", "schedules", "ks", "js", "static_A", "static_B", "line_events_A", "line_events_B", "blocked",
                                       "b_finished_early", "stripe")} | {"distinct_outcomes": len(g["outcomes"]), "violating_schedules": len(g["bad"])})
         groups = {}
         ab, ba = g["allowed"][0], g["allowed"][-1]
@@ -525,7 +531,7 @@ def run(tier, seed, jobs, deadline, report):
                        "outcomes": r["outcomes"]} for r in results[:6]]
     report.subspaces = [{"name": "%s/%s preempted/%s/%s" % (p["pair"], p["A"], p["init"], p["mode"]), "size": p["schedules"],
                          "executed": p["schedules"], "complete": True} for p in per]
-    report.subspaces += [{"name": "bound-2/%s/%s first/warm/k-stripe %s" % (p["pair"], p["A"], p["stripe"]), "size": p["schedules"],
+    report.subspaces += [{"name": "bound-2/%s/%s first per %s/warm/k-stripe %s" % (p["pair"], p["A"], p["gran"], p["stripe"]), "size": p["schedules"],
                           "executed": p["schedules"], "complete": True} for p in per2]
     report.extra.update({"states": max(1, locs), "transitions": total + total2, "traces_validated_against_impl": total + total2,
                          "preemption_bound": "1 (every line event) and 2 (first occurrence of every static location, cooperative scheduler)",
